@@ -1,7 +1,7 @@
 """C07 - the serializer's output is a spec-conformant chunk stream (DESIGN.md section 5, C07)."""
 import re
 from .common import *
-from . import chunk
+from . import chunk, facts
 from .. import grammar
 from ..grammar import fmt_tok
 
@@ -97,7 +97,24 @@ def run(env, rep):
     ghf = m.b["get_header_format"]
     req = spec["compression_requires_equal"]
     n3 = 0
-    for p in grammar.reads(env, ghf.key).paths:
+    HDR = "chunk_io::chunk_header::ChunkHeader"
+    all_req = sorted({f for fs in req.values() for f in fs})
+
+    def eq_probe(it, S):
+        # which fields of the header being written (its value when the function returns) the path's state proves equal to the
+        # same field of the previous header: the comparison may be on the field itself or on the value just stored in it
+        out = []
+        cur, prev = State().read((it.L(1), ())), State().read((it.L(2), ()))
+        for f in all_req:
+            pr = facts.field_proj(prog, HDR, [f])
+            if pr is None:
+                continue
+            a = S.read((("P", cur), pr))
+            b = S.read((("P", prev), pr))
+            if facts.equal(S, a, b):
+                out.append(f)
+        return tuple(out)
+    for p in grammar.trace(env, ghf.key, "r", probe=eq_probe, inline=False).paths:
         r = [t for t in p if t[0] == "returns"]
         if not r or not re.match(r"^ChunkHeaderFormat::(\w+)$", r[-1][1]):
             continue
@@ -106,6 +123,9 @@ def run(env, rep):
         if not k:
             continue
         eq = set()
+        for t in p:
+            if t[0] == "probe":
+                eq |= set(t[1])
         for t in p:
             if t[0] != "when":
                 continue
